@@ -196,6 +196,11 @@ theorem running_true_only_before_wait_returns (hc : c.current) (hr : Reachable c
     rw [hb] at this; exact absurd this (by simp)
   · exact hge
 
+/-- Each operation of each caller is logged as called at most once (so "its call event" above is unique). -/
+theorem call_events_unique (hc : c.current) (hr : Reachable c ps s) {x y : Nat × Ev} (hx : x ∈ s.log) (hy : y ∈ s.log)
+    {t i : Nat} {op op' : Op} (h1 : x.2 = .call t i op) (h2 : y.2 = .call t i op') : x = y :=
+  (CallU.reachable hc hr).uniq x hx y hy t i op op' h1 h2
+
 /-! ### the whole property as one decidable predicate on the log -/
 
 /-- Every reachable log is accepted by `allowedLog` — the predicate the driver evaluates on the call logs recorded
@@ -289,6 +294,11 @@ def sampleSched : List Act :=
 def samplePrograms : List (List Op) := [[.start 0, .close, .wait], [.start 0], [.wait, .running]]
 
 example : curCfg.current := by decide
+/-- the hypotheses of the theorems above are satisfiable by a non-trivial state: a reachable state of the current code in
+    which a Wait has returned a result, the handler has run, and a stale Start has reported ErrServiceReturned -/
+example : ∃ s, Reachable curCfg samplePrograms s ∧ has s.log isWaitRes = true ∧ countEv s.log (isBegin .handler) = 1
+    ∧ (31, Ev.ret 1 0 .startReturned) ∈ s.log ∧ s.once ≠ .fresh := by
+  refine ⟨(run curCfg (init samplePrograms) sampleSched).get (by decide), ⟨sampleSched, by simp⟩, ?_, ?_, ?_, ?_⟩ <;> decide
 example : ((run curCfg (init samplePrograms) sampleSched).map (fun s => (s.rg, s.sd, s.eh, s.wg)))
     = some (.gone, .gone, .gone, 0) := by decide
 example : ((run curCfg (init samplePrograms) sampleSched).map (fun s => (countEv s.log isStartNil, s.coll)))
